@@ -11,5 +11,7 @@ func main() {
 		"repro": repro,
 		"c28p":  c28p,
 		"c27x":  c27x,
+		"c28s":  c28s,
+		"c28t":  c28t,
 	})
 }
